@@ -175,6 +175,8 @@ Proof. exact ct_as_str_table_ok. Qed.
    only local variable, produce exactly the head (or the refusal) of the model the theorems above are about -- for
    every response, close flag and reason / content-type table.  The part after the head (write_all, the match on
    body.len(), copy_async under take / copy_chunked_async, flush) is checked for the transcribed shape. *)
+Theorem c06_copy_buffer_is_the_source : copy_cap = N.to_nat src_copy_buf_len /\ src_problems_copy_async = 0%nat.
+Proof. exact copy_buf_tie. Qed.
 Theorem c06_head_is_the_source :
   forall reason ct_text r close, eval_head reason ct_text r close = build_head reason ct_text false r close.
 Proof. exact response_head_tie. Qed.
@@ -196,3 +198,4 @@ Print Assumptions c06_oracle_sound.
 Print Assumptions c06_source_content_type_texts_ok.
 Print Assumptions c06_head_is_the_source.
 Print Assumptions c06_head_translation_complete.
+Print Assumptions c06_copy_buffer_is_the_source.
